@@ -2425,7 +2425,8 @@ int case_compare (parse_node_t ** c1, parse_node_t ** c2) {
   if ((*c2)->kind == NODE_DEFAULT)
     return 1;
 
-  return (int)((*c1)->r.number - (*c2)->r.number);
+  /* (the difference of two 64-bit labels does not fit into an int) */
+  return ((*c1)->r.number < (*c2)->r.number) ? -1 : ((*c1)->r.number > (*c2)->r.number);
 }
 
 int string_case_compare (parse_node_t ** c1, parse_node_t ** c2) {
@@ -2443,13 +2444,13 @@ int string_case_compare (parse_node_t ** c1, parse_node_t ** c2) {
   p1 = ((i1 && (*c1)->kind == NODE_CASE_STRING) ? PROG_STRING (i1) : 0);
   p2 = ((i2 && (*c2)->kind == NODE_CASE_STRING) ? PROG_STRING (i2) : 0);
 
-  return (int)(p1 - p2);
+  return (p1 < p2) ? -1 : (p1 > p2);
 }
 
 void prepare_cases (parse_node_t * pn, size_t start) {
   parse_node_t **ce_start, **ce_end, **ce;
   size_t end;
-  int last_key, this_key;
+  int64_t last_key, this_key;	/* case labels are 64-bit */
   int direct = 1;
 
   ce_start = (parse_node_t **) & mem_block[A_CASES].block[start];
@@ -2485,15 +2486,15 @@ void prepare_cases (parse_node_t * pn, size_t start) {
     }
   if ((*ce)->v.expr)
     {
-      last_key = (int)(*ce)->v.expr->r.number;
+      last_key = (*ce)->v.expr->r.number;
       direct = 0;
     }
   else
-    last_key = (int)(*ce)->r.number;
+    last_key = (*ce)->r.number;
   ce++;
   while (ce < ce_end)
     {
-      this_key = (int)(*ce)->r.number;
+      this_key = (*ce)->r.number;
       if (pn->kind == NODE_SWITCH_RANGES && this_key <= last_key)
         {
           char buf[1024];
@@ -2507,10 +2508,13 @@ void prepare_cases (parse_node_t * pn, size_t start) {
           save_file_info (current_file_id, current_line - current_line_saved);
           current_line_saved = current_line;
 
-          translate_absolute_line ((*ce)->line, (unsigned short *) mem_block[A_FILE_INFO].block, mem_block[A_FILE_INFO].current_size, &fi1, &l1);
-          translate_absolute_line ((*(ce - 1))->line, (unsigned short *) mem_block[A_FILE_INFO].block, mem_block[A_FILE_INFO].current_size, &fi2, &l2);
-          f1 = PROG_STRING (fi1);
-          f2 = PROG_STRING (fi2);
+          /* the file id is the index of the file's name in the string table + 1 */
+          f1 = f2 = 0;
+          l1 = l2 = 0;
+          if (0 == translate_absolute_line ((*ce)->line, (unsigned short *) mem_block[A_FILE_INFO].block, mem_block[A_FILE_INFO].current_size, &fi1, &l1) && fi1 > 0)
+            f1 = PROG_STRING (fi1 - 1);
+          if (0 == translate_absolute_line ((*(ce - 1))->line, (unsigned short *) mem_block[A_FILE_INFO].block, mem_block[A_FILE_INFO].current_size, &fi2, &l2) && fi2 > 0)
+            f2 = PROG_STRING (fi2 - 1);
 
           p = strput (buf, buf_end, "Overlapping cases: ");
           if (f1)
@@ -2520,6 +2524,7 @@ void prepare_cases (parse_node_t * pn, size_t start) {
             }
           else
             p = strput (p, buf_end, "line ");
+          p = strput_int (p, buf_end, l1);
           p = strput (p, buf_end, " and ");
           if (f2)
             {
@@ -2528,13 +2533,14 @@ void prepare_cases (parse_node_t * pn, size_t start) {
             }
           else
             p = strput (p, buf_end, "line ");
+          p = strput_int (p, buf_end, l2);
           p = strput (p, buf_end, ".");
           yyerror (buf);
         }
       (*(ce - 1))->l.expr = *ce;
       if ((*ce)->v.expr)
         {
-          last_key = (int)(*ce)->v.expr->r.number;
+          last_key = (*ce)->v.expr->r.number;
           direct = 0;
         }
       else
